@@ -100,18 +100,26 @@ def program(seed):
 
 
 def worker(arg):
-    seed, souffle = arg
+    seed, souffle = arg[0], arg[1]
+    compiled_mode = len(arg) > 2 and arg[2]
     text, spec = program(seed)
     rec = dict(seed=seed, hash=runner.prog_hash(text), features=["subsumption-" + spec["shape"]], counts={})
     d = tmpl.setup_case("C11", seed, text)
     rec["dir"] = d
     U, dom, rel = spec["U"], spec["dom"], spec["rel"]
     minimal = {t for t in U if not any(dom(t, u) for u in U)}
+    runfn = tmpl.make_runner(souffle, d, compiled_mode)
+    if runfn is None:
+        rec.update(status="skip", reason="compile-failed (C02)")
+        return rec
+    if compiled_mode:
+        rec["features"] = list(rec["features"]) + ["compiled"]
+        rec["counts"]["compiled_cases"] = 1
     viols = []
     results = {}
     for j in (1, 4, 8):
         od = "j%d" % j
-        r, ck = tmpl.run(souffle, d, args=["-j%d" % j], outdir=od)
+        r, ck = runfn(j, od, None)
         rec["counts"]["runs"] = rec["counts"].get("runs", 0) + 1
         if ck is not None:
             viols.append(("crash:" + ck, "-j%d died (%s)\n%s\n%s" % (j, ck, r.err[-2000:], text)))
@@ -158,8 +166,10 @@ def check(tier, seed):
     res = Result("exploration")
     res.rule = RULE
     base = seed * 1000000 + (0 if tier == "quick" else 50000) + 110000
-    recs = runner.pmap(worker, [(base + i, t["plain"]) for i in range(n)] + [(base + n + i, t["san"]) for i in range(nsan)], nproc=8)
+    ncomp = 4 if tier == "quick" else 48
+    recs = runner.pmap(worker, [(base + 900000 + i, t["plain"], True) for i in range(ncomp)] + [(base + i, t["plain"]) for i in range(n)] +
+                       [(base + n + i, t["san"]) for i in range(nsan)], nproc=8)
     pc.collect("C11", recs, res)
     res.min_nontrivial = n // 4
-    res.assumptions = ["interpreter only", "template programs (5 shapes) with random facts; dominance conditions are pure constraints"]
+    res.assumptions = ["interpreter, plus a compile-bound sample of executables (4 quick / 48 thorough)", "template programs (5 shapes) with random facts; dominance conditions are pure constraints"]
     return res
